@@ -1,5 +1,4 @@
 /-
-<<<<<<< HEAD
 Model of the GLUE around the HTTP/3 field-section parsers (C19, round 4):
 
 * `RawServerConn.handleRequestStream` (http3/server_conn.go): frame-length pre-check, requestFromHeaders,
@@ -79,80 +78,5 @@ def readResponse (ext : List Nat → Bool) (lim enc : Int) (fs : List Field) (qe
   else match updateResponseFromHeaders ext lim fs qerr with
     | .error e => .failed (clientReaction e).code
     | .ok r => .response (adjustLength r)
-=======
-Model of the GLUE around the HTTP/3 message body (property C18, round 4):
-
-* `RequestStream.sendRequestHeader` — when the transport asks for gzip on its own (`requestedGzip`);
-* the tail of `RequestStream.ReadResponse` (http3/stream.go) — which Content-Length limit the response
-  body is created with, what `res.ContentLength` / `res.Uncompressed` / the Content-Encoding and
-  Content-Length header fields look like afterwards, whether the body is wrapped in a gzip reader;
-* `RawServerConn.handleRequestStream` (http3/server_conn.go) — which limit the request body is created
-  with and what the handler finds in `req.Trailer` once the body was read to its end.
-
-Core-only; the functions are run by the end-to-end oracle (Oracle/H3e.lean) on every exchange.
--/
-import Uquic.Model.H3.Body
-
-namespace Uquic.Model.H3.Glue
-
-/-- `sendRequestHeader`: the transport adds `accept-encoding: gzip` itself -/
-def requestedGzip (disableCompression : Bool) (method : String) (hasAcceptEncoding hasRange : Bool) : Bool :=
-  !disableCompression && method != "HEAD" && !hasAcceptEncoding && !hasRange
-
-/-- what `ReadResponse` knows once the header section was decoded -/
-structure RespIn where
-  status : Nat := 200
-  /-- `res.ContentLength` as parsed from the header section (`none` = -1 = absent) -/
-  declared : Option Nat := none
-  /-- `Content-Encoding: gzip` -/
-  ceGzip : Bool := false
-  requestedGzip : Bool := false
-  isConnect : Bool := false
-deriving Repr, DecidableEq, Inhabited
-
-structure RespOut where
-  /-- the `contentLength` argument of `newResponseBody` -/
-  bodyLimit : Int := -1
-  /-- `res.ContentLength` of the returned response -/
-  contentLength : Int := -1
-  uncompressed : Bool := false
-  /-- the body is wrapped into a gzip reader -/
-  gunzip : Bool := false
-  keepContentEncoding : Bool := true
-  keepContentLength : Bool := true
-deriving Repr, DecidableEq, Inhabited
-
-def declInt : Option Nat → Int
-  | some n => (n : Int)
-  | none => -1
-
-/-- the tail of `RequestStream.ReadResponse` after `updateResponseFromHeaders` -/
-def readResponseTail (i : RespIn) : RespOut :=
-  let limit := declInt i.declared            -- respBody := newResponseBody(s.str, res.ContentLength, …)
-  let noBodyStatus := (100 ≤ i.status && i.status < 200) || i.status == 204 ||
-    (i.isConnect && 200 ≤ i.status && i.status < 300)
-  let cl : Int := if noBodyStatus && i.declared.isNone then 0 else declInt i.declared
-  if i.requestedGzip && i.ceGzip then
-    { bodyLimit := limit, contentLength := -1, uncompressed := true, gunzip := true,
-      keepContentEncoding := false, keepContentLength := false }
-  else
-    { bodyLimit := limit, contentLength := cl }
-
-/-- the response body the client reads DATA from (before any decompression) -/
-def responseBody (i : RespIn) (str : Str) : Body := Body.new str (readResponseTail i).bodyLimit
-
-/-- `handleRequestStream`: the limit the request body is created with -/
-def requestBodyLimit (hasContentLengthHeader : Bool) (reqContentLength : Int) : Int :=
-  if hasContentLengthHeader && reqContentLength ≥ 0 then reqContentLength else -1
-
-/-- `handleRequestStream`: the request the handler holds is the one the trailer callback assigns to;
-    the callback REPLACES the Trailer map by the decoded trailer section.  `announced` = the keys the
-    request's Trailer field announced (values nil), `received` = `none` while no trailer section was read -/
-def handlerTrailer (announced : List (String × List String)) (received : Option (List (String × List String))) :
-    List (String × List String) :=
-  match received with
-  | none => announced
-  | some t => t
->>>>>>> wt-C18
 
 end Uquic.Model.H3.Glue
